@@ -849,12 +849,17 @@ func (check typecheck) builtin(name string, n *node, child []*node, ellipsis boo
 			return nil
 		}
 
+		// Use the element type of the slice type if known, as its reflect type may have lost its name.
+		elem := valueTOf(t.Elem())
+		if styp := typ.resolveAlias(); styp.cat == sliceT {
+			elem = styp.val
+		}
 		fun := &node{
 			typ: &itype{
 				cat: funcT,
 				arg: []*itype{
 					typ,
-					{cat: variadicT, val: valueTOf(t.Elem())},
+					{cat: variadicT, val: elem},
 				},
 				ret: []*itype{typ},
 			},
@@ -1067,7 +1072,15 @@ func (check typecheck) argument(p param, ftyp *itype, i, l int, ellipsis bool) e
 			return p.nod.cfgErrorf("can only use ... with matching parameter")
 		}
 		t := p.Type().TypeOf()
-		if t.Kind() != reflect.Slice || !(valueTOf(t.Elem())).assignableTo(atyp) {
+		if t.Kind() != reflect.Slice {
+			return p.nod.cfgErrorf("cannot use %s as type %s", p.nod.typ.id(), (sliceOf(atyp)).id())
+		}
+		// Use the element type of the slice type if known, as its reflect type may have lost its name.
+		elem := valueTOf(t.Elem())
+		if styp := p.Type().resolveAlias(); styp.cat == sliceT {
+			elem = styp.val
+		}
+		if !elem.assignableTo(atyp) {
 			return p.nod.cfgErrorf("cannot use %s as type %s", p.nod.typ.id(), (sliceOf(atyp)).id())
 		}
 		return nil
